@@ -2,6 +2,11 @@ import JunoModel.C11.Proofs
 /-! C11 — juno's binding and dispatch against the independent reading of JSON-RPC 2.0 in ModelSpec.lean. -/
 namespace Juno.C11
 
+/-- the dispatcher's treatment of one argument is the documented rule -/
+theorem specArg_eq (env : Env) (p : Param) (v : Json) : specArg env p v = decodeParam env p v := by
+  unfold specArg decodeParam
+  cases hn : env.nullNotGiven <;> cases v <;> simp
+
 /-! ### by position -/
 
 theorem required_le_of_drop_optional (ps : List Param) (n : Nat)
@@ -40,8 +45,8 @@ theorem bindPositional_eq_spec (env : Env) (ps : List Param) (vs : List Json) (h
         simp [bind, Except.bind, pure, Except.pure, Except.toOption, this]
     | cons v vs =>
       have := ih vs (by simpa using hlen)
-      simp only [bindPositional, specDecodeAll]
-      cases hd : env.decode p.ty v with
+      simp only [bindPositional, specDecodeAll, specArg_eq]
+      cases hd : decodeParam env p v with
       | none => simp [Except.toOption, bind, Option.bind]
       | some a =>
         cases hs : specDecodeAll env ps vs with
@@ -124,11 +129,11 @@ theorem bindNamed_eq_spec (env : Env) (ps : List Param) (m : List (String × Jso
   | cons p ps ih =>
     have hps' := (List.nodup_cons.mp hps).2
     have hp : p.name ∉ ps.map (·.name) := (List.nodup_cons.mp hps).1
-    simp only [specNamed, bindNamed, mapGet_eq_member hm]
+    simp only [specNamed, bindNamed, mapGet_eq_member hm, specArg_eq]
     cases hmem : member m p.name with
     | some v =>
       simp only
-      cases hd : env.decode p.ty v with
+      cases hd : decodeParam env p v with
       | none => exact ⟨_, rfl⟩
       | some a =>
         have ih' := ih (mapDelete m p.name) hps' (nodup_mapDelete _ hm)
@@ -811,7 +816,7 @@ theorem input_meets_spec (env : Env) (tbl : Table) (inp : Input) (es : List Json
     · rw [handleInput_single junoCfg env tbl inp j hjs]
       have hc : inp.decodeFailCode junoCfg = InvalidJSON := by simp [Input.decodeFailCode, hb, InvalidJSON]
       simp only [hb, Option.isSome_none, hc, assemble, Bool.false_eq_true, if_false]
-      cases (handleEntry junoCfg env tbl InvalidJSON j).1 <;> simp
+      cases hh : (handleEntry junoCfg env tbl InvalidJSON j).1 <;> simp [hh]
   · rcases entries_cases hes with hb | ⟨hb, j, hjs, rfl⟩
     · rw [handleInput_batch junoCfg env tbl inp es hb]
       have hc : inp.decodeFailCode junoCfg = InvalidRequest := by simp [Input.decodeFailCode, hb, InvalidRequest]
@@ -888,5 +893,44 @@ theorem stage_id_legal_repaired (cfg : Config) (hc : cfg.legalIdEchoOnly = true)
         cases buildArguments env req.params m with
         | error e => exact sane_legal req hs
         | ok args => exact sane_legal req hs
+
+theorem response_id_legal_plain (env : Env) (tbl : Table) (c : Int) (kvs : List (String × Json))
+    (hp : PlainMembers kvs) (hid : IdScalarOrAbsent kvs) (r : Response)
+    (h : (handleEntry junoCfg env tbl c (.obj kvs)).1 = some r) : LegalId r.id := by
+  rw [handleEntry_eq] at h
+  rw [entrySpec_id junoCfg env c _ r h]
+  -- the decoded id is the scalar id member, or nil
+  have hreq : ∀ req, decodeRequest (.obj kvs) = some req → LegalId (idJson req.id) := by
+    intro req hr
+    rw [decodeRequest_plain kvs hp] at hr
+    cases h1 : stringField (member kvs "jsonrpc") <;> cases h2 : stringField (member kvs "method") <;>
+      simp [h1, h2] at hr
+    subst hr
+    simp only
+    cases hmi : member kvs "id" with
+    | none => simp [idJson, LegalId]
+    | some v =>
+      rcases hid v hmi with ⟨s, rfl⟩ | ⟨t, rfl⟩ | rfl <;> simp [storeAny, canon, idJson, LegalId]
+  unfold stageOf
+  cases hd : decodeRequest (.obj kvs) with
+  | none => simp [Stage.id, LegalId]
+  | some req =>
+    have hl := hreq req hd
+    simp only
+    cases hs : isSane req with
+    | some e =>
+      simp only [Stage.id, echoId, junoCfg]
+      by_cases he : e = .id
+      · simp [he, LegalId]
+      · simpa [he] using hl
+    | none =>
+      simp only
+      cases lookupMethod tbl req.method with
+      | none => exact hl
+      | some m =>
+        simp only
+        cases buildArguments env req.params m with
+        | error e => exact hl
+        | ok args => exact hl
 
 end Juno.C11
